@@ -52,6 +52,7 @@ type env struct {
 	keys map[string]*world.Actor
 	// additional watched principals (victims that are never written into messages)
 	M *actor
+	R *actor // a registered light-node client holding a grant from the light-node feegranter
 	// scenario facts
 	denoms      []string
 	pendingTx   uint64 // U's transfer still in the pool
@@ -103,7 +104,7 @@ func (e *env) tx(ctx sdk.Context, what string, signer *world.Actor, msg sdk.Msg)
 }
 
 func newEnv() *env {
-	w := world.New(world.Config{Stakes: world.StakesOf(1_000_000, 1_000_000, 1_000_000), Users: []string{"A", "U"}, Unfunded: []string{"L", "M"}, Height: 101})
+	w := world.New(world.Config{Stakes: world.StakesOf(1_000_000, 1_000_000, 1_000_000), Users: []string{"A", "U"}, Unfunded: []string{"L", "M", "R"}, Height: 101})
 	e := &env{w: w, byName: map[string]*actor{}, keys: map[string]*world.Actor{}}
 	mk := func(name, role string, acc sdk.AccAddress, ethName string) *actor {
 		hx, raw := ethOf(ethName)
@@ -123,6 +124,7 @@ func newEnv() *env {
 	e.G = mk("G", "governance", gov, "G")
 	e.L = mk("L", "licensee", w.User("L").Addr, "L")
 	e.M = mk("M", "licensee", w.User("M").Addr, "M")
+	e.R = mk("R", "registered-light-node-client", w.User("R").Addr, "R")
 	e.C = mk("C", "contract", wasmkeeper.BuildContractAddressClassic(1, 1), "C")
 	e.V = mk("V", "validator-attacker", w.Vals[1].Addr, w.Vals[1].Name)
 	if e.V.EthHex != w.Vals[1].EthAddr() {
@@ -130,7 +132,7 @@ func newEnv() *env {
 	}
 	e.I = mk("I", "interchain-account", world.NewActor("ica-I").Addr, "I")
 	e.actors = []*actor{e.A, e.B, e.U, e.G, e.L}
-	e.keys = map[string]*world.Actor{"A": w.User("A"), "B": b.Actor, "U": w.User("U"), "L": w.User("L"), "M": w.User("M"), "V": w.Vals[1].Actor}
+	e.keys = map[string]*world.Actor{"A": w.User("A"), "B": b.Actor, "U": w.User("U"), "L": w.User("L"), "M": w.User("M"), "R": w.User("R"), "V": w.Vals[1].Actor}
 	e.setup()
 	return e
 }
@@ -279,6 +281,18 @@ func (e *env) setup() {
 	e.compassSCID = deps[0].SmartContractID
 	// a pending licence for M (gift from U)
 	e.tx(ctx, "licence", U, &palomatypes.MsgAddLightNodeClientLicense{Metadata: world.Meta(U), ClientAddress: e.M.Acc.String(), Amount: sdk.NewInt64Coin(world.BondDenom, 1000), VestingMonths: 12})
+
+	// a registered light-node client R, set up the way a light-node sale does it: the
+	// governance-configured feegranter / funder (U here), a licence, the feegranter's
+	// grant, and R's own registration at block time t0 (licence consumed)
+	must(w.App.PalomaKeeper.SetLightNodeClientFeegranter(ctx, e.U.Acc))
+	must(w.App.PalomaKeeper.SetLightNodeClientFunders(ctx, []sdk.AccAddress{e.U.Acc}))
+	e.tx(ctx, "licence R", U, &palomatypes.MsgAddLightNodeClientLicense{Metadata: world.Meta(U), ClientAddress: e.R.Acc.String(), Amount: sdk.NewInt64Coin(world.BondDenom, 2000), VestingMonths: 24})
+	must(w.App.FeeGrantKeeper.GrantAllowance(ctx, e.U.Acc, e.R.Acc, &feegrant.BasicAllowance{}))
+	e.tx(ctx, "register R", e.keys["R"], &palomatypes.MsgRegisterLightNodeClient{Metadata: world.Meta(e.keys["R"])})
+	if _, err := w.App.PalomaKeeper.GetLightNodeClient(ctx, e.R.Acc.String()); err != nil {
+		panic("setup: R is not a registered light-node client")
+	}
 
 	// a contract always has an account
 	w.App.AccountKeeper.SetAccount(ctx, w.App.AccountKeeper.NewAccountWithAddress(ctx, e.C.Acc))
